@@ -681,13 +681,15 @@ def run(ctx: vlib.Ctx):
     ]
     ctx.theorems("props/C05_errors.vo", THEOREMS)
     ctx.theorems("props/C05_typed.vo", TYPED_THEOREMS)
+    ctx.theorems("props/C05_xtyped.vo", ["C05_x_outcomes", "C05_x_first_bad", "C05_x_union_position",
+                                         "C05_x_union_rejects_partial", "C05_lit_ok", "C05_lit_exn"])
     # (T) kernel K16: emitted handler classes + exceptions.py hierarchy, re-translated from /repo on every run
     ctx.theorems("props/C05_handlers.vo", ["C05_k16_handlers_as_modelled", "C05_k16_documented_pass_through",
                                            "C05_k16_model_patterns"], kernels=["K16"])
     if not ctx.quick():
         # second opinion: the independent checker re-validates the compiled property files and their cone
         rc, log, secs = vlib.run(["timeout", "1500", "coqchk", "-silent", "-o", "-Q", "theories", "Verif", "-Q", "gen", "VerifGen",
-                                  "-Q", "props", "VerifProps", "VerifProps.C05_errors", "VerifProps.C05_typed", "VerifProps.C05_handlers"],
+                                  "-Q", "props", "VerifProps", "VerifProps.C05_errors", "VerifProps.C05_typed", "VerifProps.C05_xtyped", "VerifProps.C05_handlers"],
                                  cwd=vlib.COQ, timeout=1530)
         ok = rc == 0 and "Axioms: <none>" in log
         ctx.obligation("coqchk VerifProps.C05_errors C05_typed C05_handlers (Axioms: <none>)", ok, log[-400:])
@@ -870,6 +872,19 @@ def run(ctx: vlib.Ctx):
             if tbad:
                 ctx.not_shown("correspondence c05_typed", f"{len(tbad)} of {len(tcases)} cases differ: {det}")
         ctx.count(n=len(tcases))
+        # ---- Union / Literal field positions and codec roots over the typed grammar (ErrsX.uex / uex_root)
+        from harness.props import c05_xtyped
+        xcases, xbad, xlog = c05_xtyped.run(ctx, ctx.budget(40, 400), ctx.budget(2, 3))
+        if xbad is None:
+            ctx.correspondence("c05_xtyped", len(xcases), -1, xlog)
+            ctx.not_shown("correspondence c05_xtyped", xlog)
+        else:
+            det = "; ".join(f"{c05_xtyped.gen.py_ann(xcases[i]['t'])} via {xcases[i]['entry']} <- {xcases[i]['input']!r}: impl {xcases[i]['term']} ctx {xcases[i]['cx']}"[:500]
+                            for i in xbad[:6])
+            ctx.correspondence("c05_xtyped", len(xcases), len(xbad), det)
+            if xbad:
+                ctx.not_shown("correspondence c05_xtyped", f"{len(xbad)} of {len(xcases)} cases differ: {det}")
+        ctx.count(n=len(xcases))
         hic, hil = hier_section(ctx, rng, ctx.budget(120, 1500))
         run_corr(ctx, "c05_discr_history", hic,
                  "fun c => match c with (f, vs, ins, outs) => list_eqb res_eqb (discr_history f vs [] ins) outs end",
